@@ -69,7 +69,7 @@ theorem denote_stripReloadBanner (out : Str) :
 
 theorem denote_check (ci : Str) : denote (checkP (σ := σ) ci) = check ci := by
   unfold check checkP
-  simp only [denote, bindM_pure_left]
+  simp only [denote, bindM_pure_left, denote_stripReloadBanner]
   congr 1; funext out; congr 1; funext p; congr 1; funext o; congr 1
   unfold checkOutput
   cases o.isEmpty
@@ -80,14 +80,9 @@ theorem denote_check (ci : Str) : denote (checkP (σ := σ) ci) = check ci := by
 
 theorem denote_cmd (D : Device σ) (c : Str) : denote (cmdP D c) = cmd D true c := by
   unfold cmd cmdP
-  simp only [denote, bindM_pure_left, denote_check]
+  simp only [denote, bindM_pure_left, denote_check, denote_sendReloadCmd]
   congr 1; funext _; congr 1; funext n1; congr 1
   cases (cutNL c).2.isEmpty <;> rfl
-
-theorem denote_applyCommands (D : Device σ) (cs : List Str) :
-    denote (applyCommandsP D cs) = applyCommands D true cs := by
-  unfold applyCommands applyCommandsP guarded guardedBody changeLoop
-  simp only [denote, bindM_pure_left]
 
 /-! ### the retry loop of `writeMem` -/
 
@@ -141,6 +136,13 @@ theorem denote_writeMem (D : Device σ) : denote (writeMemP D) = writeMem D 2 :=
   simp only [denote]
   exact loopM_writeMem D 2
 
+/-- the program of `ApplyCommands` — all helpers inlined — denotes the model every C15 theorem is about -/
+theorem denote_applyCommands (D : Device σ) (cs : List Str) :
+    denote (applyCommandsP D cs) = applyCommands D true cs := by
+  unfold applyCommands applyCommandsP guarded guardedBody changeLoop scheduleReload
+  simp only [denote, bindM_pure_left, denote_prepareDevice, denote_sendReloadCmd, denote_cancelReload,
+    denote_cmd, denote_writeMem]
+
 /-! ### the login / enable dialogue -/
 
 theorem denote_loginWaitPrompt (D : Device σ) (enter : Str) (c : Char) :
@@ -148,7 +150,7 @@ theorem denote_loginWaitPrompt (D : Device σ) (enter : Str) (c : Char) :
 
 theorem denote_loginEnable (D : Device σ) (pass : Str) : denote (loginEnableP D pass) = loginEnable D pass := by
   unfold loginEnable loginEnableP
-  simp only [denote]
+  simp only [denote, bindM_pure_left, denote_loginWaitPrompt]
 
 /-! ## their path sets are the regenerated ones -/
 
@@ -158,61 +160,26 @@ def noDev : Device Unit := { step := fun _ _ => ((), []) }
 /-- the regenerated path set of a Go function -/
 def gen (f : String) : List SkelPath := (NA.Gen.IosSkel.paths.lookup f).getD [([.atom (.step "?missing")], false)]
 
+/-- **the tie.** The path set of `ApplyCommands` regenerated from the source — helpers of the package
+inlined by the translator, wherever they live and however they are wrapped — is the path set of the
+program whose semantics is the model. -/
 theorem paths_applyCommands (D : Device σ) (cs : List Str) :
     sameSet (gen "ApplyCommands") (paths (applyCommandsP D cs)) = true := by
   have h : paths (applyCommandsP D cs) = paths (applyCommandsP noDev []) := rfl
   rw [h]; decide +kernel
-theorem paths_cmd (D : Device σ) (c : Str) : sameSet (gen "cmd") (paths (cmdP D c)) = true := by
-  have h : paths (cmdP D c) = paths (cmdP noDev []) := rfl
-  rw [h]; decide +kernel
-theorem paths_check (ci : Str) : sameSet (gen "cmd.check") (paths (checkP (σ := σ) ci)) = true := by
-  have h : paths (checkP (σ := σ) ci) = paths (checkP (σ := Unit) []) := rfl
-  rw [h]; decide +kernel
-theorem paths_sendReloadCmd (D : Device σ) (b : Bool) :
-    sameSet (gen "sendReloadCmd") (paths (sendReloadCmdP D b)) = true := by
-  have h : paths (sendReloadCmdP D b) = paths (sendReloadCmdP noDev false) := rfl
-  rw [h]; decide +kernel
-theorem paths_scheduleReload (D : Device σ) :
-    sameSet (gen "scheduleReload") (paths (scheduleReloadP D)) = true := by
-  have h : paths (scheduleReloadP D) = paths (scheduleReloadP noDev) := rfl
-  rw [h]; decide +kernel
-theorem paths_extendReload (D : Device σ) :
-    sameSet (gen "extendReload") (paths (extendReloadP D)) = true := by
-  have h : paths (extendReloadP D) = paths (extendReloadP noDev) := rfl
-  rw [h]; decide +kernel
-theorem paths_cancelReload (D : Device σ) :
-    sameSet (gen "cancelReload") (paths (cancelReloadP D)) = true := by
-  have h : paths (cancelReloadP D) = paths (cancelReloadP noDev) := rfl
-  rw [h]; decide +kernel
-theorem paths_prepareDevice (D : Device σ) :
-    sameSet (gen "prepareDevice") (paths (prepareDeviceP D)) = true := by
-  have h : paths (prepareDeviceP D) = paths (prepareDeviceP noDev) := rfl
-  rw [h]; decide +kernel
-theorem paths_stripReloadBanner (out : Str) :
-    sameSet (gen "stripReloadBanner") (paths (stripReloadBannerP (σ := σ) out)) = true := by
-  have h : paths (stripReloadBannerP (σ := σ) out) = paths (stripReloadBannerP (σ := Unit) []) := rfl
-  rw [h]; decide +kernel
-/-- `writeMem`: the path set of the program with the retry loop -/
-theorem paths_writeMem (D : Device σ) : sameSet (gen "writeMem") (paths (writeMemP D)) = true := by
-  have h : paths (writeMemP D) = paths (writeMemP noDev) := rfl
-  rw [h]; decide +kernel
+
+/-- the same for the login / enable dialogue (`LoginEnable`, closure `waitPrompt` inlined) -/
 theorem paths_loginEnable (D : Device σ) (pass : Str) :
     sameSet (gen "LoginEnable") (paths (loginEnableP D pass)) = true := by
   have h : paths (loginEnableP D pass) = paths (loginEnableP noDev []) := rfl
   rw [h]; decide +kernel
-theorem paths_loginWaitPrompt (D : Device σ) (enter : Str) (c : Char) :
-    sameSet (gen "LoginEnable.waitPrompt") (paths (loginWaitPromptP D enter c)) = true := by
-  have h : paths (loginWaitPromptP D enter c) = paths (loginWaitPromptP noDev [] 'x') := rfl
-  rw [h]; decide +kernel
 
 /-- the comparison is not vacuous: the sets are non-empty and a different set is rejected -/
-example : gen "ApplyCommands" ≠ [] ∧ sameSet (gen "ApplyCommands") (gen "cmd") = false := by decide
+example : gen "ApplyCommands" ≠ [] ∧ sameSet (gen "ApplyCommands") (gen "LoginEnable") = false := by decide +kernel
 
 def obligations : List Lean.Name :=
   [``denote_applyCommands, ``denote_cmd, ``denote_check, ``denote_sendReloadCmd, ``denote_cancelReload,
-   ``denote_prepareDevice, ``denote_stripReloadBanner,
-   ``paths_applyCommands, ``paths_cmd, ``paths_check, ``paths_sendReloadCmd, ``paths_scheduleReload,
-   ``paths_extendReload, ``paths_cancelReload, ``paths_prepareDevice, ``paths_stripReloadBanner, ``paths_writeMem,
-   ``denote_writeMem, ``denote_loginEnable, ``denote_loginWaitPrompt, ``paths_loginEnable, ``paths_loginWaitPrompt]
+   ``denote_prepareDevice, ``denote_stripReloadBanner, ``denote_writeMem, ``denote_loginEnable, ``denote_loginWaitPrompt,
+   ``paths_applyCommands, ``paths_loginEnable]
 
 end NA.C15Skel
